@@ -412,6 +412,10 @@ where
     if to == from {
         to = (from + 1) % n;
     }
+    if to == from {
+        // a single node: the same endpoint twice asks for closed walks, not for simple paths
+        return Ok(());
+    }
     let min_i = (c.p % 4) as usize;
     let max_i: Option<usize> = match c.q % 6 {
         0 | 1 => None,
@@ -684,10 +688,37 @@ fn pr_run(c: &Case) -> Outcome {
     Ok(obs)
 }
 
+/// scope of the bounded-exhaustive sub-check: every labelled digraph on 1..=4 nodes and every
+/// labelled undirected graph on 1..=5 nodes (6 in the thorough tier), loops included
+fn scope(tier: Tier) -> (usize, usize) {
+    if tier == Tier::Quick {
+        (4, 5)
+    } else {
+        (4, 6)
+    }
+}
+fn und_count(_tier: Tier) -> u64 {
+    small_simple_und_count(7)
+}
+fn und_make(_tier: Tier, i: u64) -> Case {
+    let (n, mask) = small_simple_und(i, 7).expect("index within the scope");
+    Case { g: raw_explicit_und_loopless(n, mask, 0), enc: (i % 5) as u8, salt: (i % 251) as u8, a: 0, b: sel_for(n - 1, n), p: 0, q: 0, mask: 0xffff }
+}
+const DIR_P: u64 = 5 * 4;
+fn dir_count(tier: Tier) -> u64 {
+    small_graph_count(scope(tier).0, 0) * DIR_P
+}
+fn dir_make(tier: Tier, i: u64) -> Case {
+    let (dir, n, mask) = small_graph(i / DIR_P, scope(tier).0, 0).expect("index within the scope");
+    let p = i % DIR_P;
+    // a = path start, b = path end, p/q = bounds selectors of all_simple_paths
+    Case { g: raw_explicit(dir, n, mask, 0), enc: (p % 5) as u8, salt: (i % 251) as u8, a: sel_for((p / 5) as usize % n, n), b: sel_for((i / 7) as usize % n, n), p: (i % 4) as u8, q: (i % 6) as u8, mask: 0xffff }
+}
+
 pub fn property() -> Property {
     Property {
         id: "C20",
-        rule: "seven sub-checks, each over random graphs of the algorithm's documented domain (sizes for the quick tier): maximal_cliques (simple undirected, <=8 nodes, 5 encodings incl. StableGraph/MatrixGraph with vacancies; equal as a set of sets to subset enumeration, no duplicates); dsatur_coloring (<=9 nodes; proper, colours 0..k-1 all used, k<=2 on bipartite graphs); greedy_feedback_arc_set (directed multigraphs with loops <=10 nodes, Graph and StableGraph with holes; distinct real edges, all loops, remainder acyclic); tred (simple DAGs <=12 nodes, a generated valid topological order; renumbered list, closure and reduction equal to Warshall-based definitions); all_simple_paths (directed, from != to, min 0..3, max None or 0..5; equal to DFS enumeration, as multiset on simple graphs); steiner_tree (connected simple undirected, weights 1..9 or 1..3, 2..n terminals; subgraph, connected, tree, terminals, leaves, weight <= 2*optimum from a Dreyfus-Wagner DP); page_rank (damping .25/.5/.85/1, 0..30 iterations; length, non-negativity, sum 1, equivariance under relabeling, f32 vs f64). Non-trivial per sub-check: >=2 maximal cliques on a non-complete graph; chromatic result >=3 or bipartite with >=3 edges; cyclic with >=2 SCCs; reduction smaller than the graph; >=2 paths of different lengths; a non-terminal node in the tree; asymmetric ranks. Distinct by case fingerprint",
+        rule: "seven sub-checks, each over random graphs of the algorithm's documented domain (sizes for the quick tier): maximal_cliques (simple undirected, <=8 nodes, 5 encodings incl. StableGraph/MatrixGraph with vacancies; equal as a set of sets to subset enumeration, no duplicates); dsatur_coloring (<=9 nodes; proper, colours 0..k-1 all used, k<=2 on bipartite graphs); greedy_feedback_arc_set (directed multigraphs with loops <=10 nodes, Graph and StableGraph with holes; distinct real edges, all loops, remainder acyclic); tred (simple DAGs <=12 nodes, a generated valid topological order; renumbered list, closure and reduction equal to Warshall-based definitions); all_simple_paths (directed, from != to, min 0..3, max None or 0..5; equal to DFS enumeration, as multiset on simple graphs); steiner_tree (connected simple undirected, weights 1..9 or 1..3, 2..n terminals; subgraph, connected, tree, terminals, leaves, weight <= 2*optimum from a Dreyfus-Wagner DP); page_rank (damping .25/.5/.85/1, 0..30 iterations; length, non-negativity, sum 1, equivariance under relabeling, f32 vs f64). Non-trivial per sub-check: >=2 maximal cliques on a non-complete graph; chromatic result >=3 or bipartite with >=3 edges; cyclic with >=2 SCCs; reduction smaller than the graph; >=2 paths of different lengths; a non-terminal node in the tree; asymmetric ranks. Distinct by case fingerprint; bounded-exhaustive sub-checks: cliques and colouring on every loop-free undirected graph on 1..=7 nodes, feedback arc sets and simple paths on every digraph on 1..=4 nodes (loops included) x encodings x endpoints x bounds",
         assumptions: &[
             "page_rank with damping 0 is degenerate (division by a zero sum on edgeless graphs) and is not generated",
             "tred is exercised on simple DAGs only (its documented input format)",
@@ -695,6 +726,10 @@ pub fn property() -> Property {
         both_profiles: false,
         subs: vec![
             sub("cliques/maximal", 500_000, 8_000_000, cliques_strategy, cliques_run),
+            sub_enum("cliques/all-simple-graphs-to-7-nodes", und_count, und_make, cliques_run),
+            sub_enum("coloring/all-simple-graphs-to-7-nodes", und_count, und_make, coloring_run),
+            sub_enum("fas/all-small-digraphs", dir_count, dir_make, fas_run),
+            sub_enum("simple_paths/all-small-digraphs", dir_count, dir_make, paths_run),
             sub("coloring/dsatur", 600_000, 10_000_000, coloring_strategy, coloring_run),
             sub("fas/greedy", 800_000, 20_000_000, fas_strategy, fas_run),
             sub("tred/reduction+closure", 600_000, 15_000_000, tred_strategy, tred_run),
